@@ -47,13 +47,13 @@ seeded changes and which check catches which in §11.
      labelled *bounded* and never counted as proved. BEC is also the replay harness and the counterexample finder when
      Verus rejects an obligation (Verus gives no model).
 * **Functions of `/repo` under Verus contract** (each verifies on the current tree through the extractor; each was shown
-  to reject seeded mutants in a scratch copy; none raises an alarm on 25 behaviour-preserving refactors, §8):
+  to reject seeded mutants in a scratch copy; none raises an alarm on 25 + 12 behaviour-preserving refactors and 137 renames of locals, §8):
 
   | unit | functions of `/repo` | what is proved for all inputs | serves |
   |---|---|---|---|
   | U1 | `wrap_algorithms::wrap_first_fit` | ordered partition **and** greedy-maximal (the exact float comparison of the statement) | C06, C07, C02, C04 |
   | U2 | `optimal_fit::wrap_optimal_fit` | partition by back-tracking; the cost closure equals the documented cost model; no index/overflow panic | C06, C03, C04 |
-  | U3 | `core::skip_ansi_escape_sequence`, `display_width`, `strip_ansi_escape_sequences` | exact functional spec (`dw`), `<=` byte length, chunk lemmas, the stripped string is ESC-free-of-sequences | C10, C05, C13, C04 |
+  | U3 | `core::skip_ansi_escape_sequence`, `display_width`, `strip_ansi_escape_sequences` | exact functional spec (`dw`), `<=` byte length, chunk lemmas, the stripped string is ESC-free-of-sequences; termination (ghost counter) | C10, C05, C13, C04 |
   | U4 | `line_ending::NonEmptyLines::next` | exact spec, every slice on a char boundary, terminates | C15, C04 |
   | U5 | `columns::wrap_columns` | the complete layout of C20 relative to whatever `wrap` returns; no panic | C20, C04 |
   | U6 | `core::Word::from`, `core::break_words` | lossless, spaces-only whitespace, cached width; dispatch is lossless / identity for narrow words | C11, C12, C01, C02 |
@@ -67,7 +67,7 @@ seeded changes and which check catches which in §11.
   | U15 | `core::Word::break_apart` (closure, R16) | non-empty pieces, concatenation, width limit unless a single non-zero-width char, maximality, never inside an escape sequence, cached widths | C12, C13, C01 |
   | U16 | `WordSplitter::split_points` (hyphen splitter) | exactly the positions after a `-` with alphanumerics on both sides; increasing char boundaries; each directly after a `-` byte | C12, C05 |
   | U17 | `WrapAlgorithm::wrap` (dispatch), `Word`'s `Fragment` impl | hands the words and every listed width to the algorithm unchanged and its partition back; accessors are pure functions of the fields; first-fit keeps words that all fit the first line on one line (A16) | C06, C07, C03, C05, C01 |
-  | U18 | `refill::unfill` | indents are prefixes made of prefix characters; no inner line break; line-ending rule; all slices safe | C15, C04 |
+  | U18 | `refill::unfill` | indents are prefixes made of prefix characters; no inner line break; line-ending rule; width == display width of the widest line; all slices safe | C15, C04 |
   | U20 | `word_separators::find_words_unicode_break_properties` (three closures, R16) | the boundaries are exactly the kept UAX #14 opportunities (relative to the assumed shape of `unicode_linebreak::linebreaks`), one each, in order, mapped back outside escape sequences; words tile the line | C11, C13, C01 |
   | U21 | `refill::refill` | `refill(x, o2) == fill(unfill(x).text minus final ending, o2 with unfill(x)'s indents) ++ ending` | C16, C04 |
   | U23 | `optimal_fit::LineNumbers::{new, get}` (RefCell memo, rewrite R17) | terminates, no panic, returns the number of back-pointer hops — for every table of smawk's shape | C03, C06, C04 |
@@ -101,10 +101,11 @@ w("""## 2. Architecture
                          UTF-8 position lemmas (`fresh.vrs`), ASCII-boundary lemmas, `lines()` byte model
   contracts/skel/        code-only skeletons (generated by `vx.py derive`; anchors for the merge only, never verified)
   tools/vx.py            lexer, extractor, rule rewriter, closure conversion, three-way annotation merge, Verus driver, obligation map
-  tools/kx.py  kani/     Kani driver (scratch copy outside /repo and /verif) and harnesses K1, K2
+  tools/kx.py  kani/     Kani driver (scratch copy outside /repo and /verif) and harnesses K1, K2, K3
   tools/props.py         per property: units, Kani harnesses, level, proved / bounded parts, trusted base
   tools/seedtest.py      applies seeded/<id>/patch.diff to /repo, runs the checks, undoes it -> seeded/RESULTS.json; seedreport.py -> RESULTS.md
   tools/harmless.py      behaviour-preserving refactors must not raise violations;  tools/stability.py  SMT-seed sweep
+  tools/harmless2.py     independently written refactors (harmless/<id>/patch.diff) against every quick check;  tools/renames.py  rename campaign
   bec/                   bounded exhaustive contract checker (Rust; path dependency on /repo; `--cfg fuzzing`)
   seeded/<id>/           patch.diff, demo.rs, NOTES.md, meta.json — changes that break a property yet pass the suite
   evidence/<id>.json     rewritten by every run;   replays/<id>/<n>.json  written on violation
@@ -113,7 +114,7 @@ w("""## 2. Architecture
 w(s21.rstrip()+"\n")
 w("""### 2.3 Back ends
 
-* **Verus**: one process per unit, 1–4 s each; all units of a property run in parallel.
+* **Verus**: one process per unit, 1–4 s each (U11: ≈ 13 s); all units of a property run in parallel.
   `verus unit.rs --triggers-mode silent --output-json --time --error-format=json --multiple-errors 5`.
 * **Kani**: `kx.py` copies `/repo` (without `target/`, `.git/`) to a scratch directory **outside `/repo` and `/verif`**,
   appends the harness module to the copy of the named source file under `#[cfg(kani)]`, relaxes
@@ -130,7 +131,7 @@ w("""### 2.3 Back ends
   scope by index (rayon), with a hang watchdog. Wrap-level contracts run (i) every text of <= 4 (thorough 5) symbols over
   an 8-symbol core alphabet, (ii) every text of <= 2 (thorough 3) symbols over a 23-symbol broad alphabet (tab, NBSP,
   U+3000, CR, CRLF, ZWSP, combining mark, SHY, 你, 中 — whose UTF-8 ends in 0xAD —, emoji, CSI sequences ending in `m`,
-  `~` and `@`, an OSC hyperlink), (iii) 60 000 (thorough 2 000 000) seeded random texts of <= 40 symbols over the broad
+  `~` and `@`, an OSC hyperlink), (iii) 60 000 (thorough 10 000 000) seeded random texts of <= 40 symbols over the broad
   alphabet; each × the option grid (2 algorithms × 2 separators × 3 splitters × break_words × 9 indent pairs incl.
   multi-byte, zero-width, ANSI-coloured and wider-than-width ones; options also passed by reference) × 8 widths incl. 0
   and `usize::MAX`. Each evidence file carries the exact scope strings, the number of evaluations and of non-trivial
@@ -149,7 +150,7 @@ w("""### 2.3 Back ends
   the function's executable contract; found → as (a); not found → the replay file names the obligation and carries
   Verus's message, and the line ends with `no-failing-input-found`.
 * **undecided** (exit 2, no VIOLATION line) — lost anchor, item not found, Verus *compile/mode* error (e.g. a renamed
-  local in an injected clause, an unsupported new construct), rlimit/timeout, Kani out of memory, BEC build failure or
+  captured variable of a converted closure, an unsupported new construct), rlimit/timeout, Kani out of memory, BEC build failure or
   watchdog. Never an alarm.
 * **known finding** — a violation matching an *open* entry of `known_findings.json` (property + input class) prints
   `KNOWN-FINDING: property=<id> …` and does not fail the run; `fixed:` entries suppress nothing; the file is never
@@ -168,7 +169,7 @@ w("""### 2.3 Back ends
 
 ### 2.6 Cost
 
-quick (per property): its Verus units in parallel (1–4 s each) + its BEC contracts at the quick scope + K1 / K3 where listed:
+quick (per property): its Verus units in parallel (1–4 s each, U11 ≈ 13 s) + its BEC contracts at the quick scope + K1 / K3 where listed:
 2–27 s per property on 16 cores (C05: ≈ 90 s because of K3) (BEC binaries cached under `/verif/bec/target*`, rebuilt when `/repo` changes).
 thorough: the thorough scopes and 5–15 M random cases per contract (10 s – 4 min per property, up to 550 M contract evaluations) + K2 for C07 (≈ 10 min). Generated unit files and Kani
 copies live in `mktemp -d` directories outside `/repo` and `/verif` and are removed on exit.
@@ -229,7 +230,7 @@ given a postcondition of the form *result == F(arguments)* for a spec function `
   track (`wrap_fn_b`) does the same for the `Cow` variant of every line. The heavy steps sit in small lemmas with explicit
   parameters (`para_words_link`, `para_slow_link`), which brought the slow path's query from 140 M down to 22 M rlimit units;
 * `str::split` is modelled as the left-to-right scan for the separator (`split_scan`); that a separator-free text is one piece
-  and that, for the unbordered separators `"\n"` and `"\r\n"`, the pieces of `a ++ E ++ b` are those of `a` followed by
+  and that, for the unbordered separators LF and CRLF, the pieces of `a ++ E ++ b` are those of `a` followed by
   those of `b` are proved for the model (`split_no_sep`, `split_concat`), and the model is checked against the real
   `str::split` by the bounded contract `A4.std_models`;
 * theorems: `c09_paragraphs_independent` (prefix, independence, `wrap(b)` for empty indents, never fewer lines than
